@@ -156,12 +156,16 @@ var counter int
 // one handles a single schema (base + features).
 func (e *env) one(fs []feature, verbose bool) {
 	d := base()
-	crlf := false
+	crlf, noEOL := false, false
 	for _, f := range fs {
 		d.applyUnique(f, f.idx)
 		crlf = crlf || f.crlf
+		noEOL = noEOL || f.noEOL
 	}
 	text := d.text(crlf)
+	if noEOL {
+		text = strings.TrimRight(text, "\r\n")
+	}
 	fset := strings.Join(names(fs), "+")
 	if fset == "" {
 		fset = "base"
